@@ -439,9 +439,12 @@ func (w *world) run() {
 	w.k.Quiesce()
 	w.check("after initial build")
 	maxActions := t.Range(3, rc.Param("max_actions", 40), "max-actions")
-	wEdit, wWatch, wAdv, wRender, wRestartApp, wRestartW, wGarbage, wBurst, wGone := t.Range(1, 6, "w-edit"), t.Range(1, 6, "w-watch"), t.Range(1, 4, "w-adv"), t.Range(1, 6, "w-render"), t.Range(0, 2, "w-rapp"), t.Range(0, 2, "w-rw"), t.Range(0, 1, "w-garbage"), t.Range(0, 1, "w-burst"), t.Range(0, 1, "w-gone")
+	wEdit, wWatch, wAdv, wRender, wRestartApp, wRestartW, wGarbage, wBurst, wGone, wTorn := t.Range(1, 6, "w-edit"), t.Range(1, 6, "w-watch"), t.Range(1, 4, "w-adv"), t.Range(1, 6, "w-render"), t.Range(0, 2, "w-rapp"), t.Range(0, 2, "w-rw"), t.Range(0, 1, "w-garbage"), t.Range(0, 1, "w-burst"), t.Range(0, 1, "w-gone"), t.Range(0, 1, "w-torn")
 	for a := 0; a < maxActions && !rc.Failed(); a++ {
-		ws := []int{wEdit, 0, wAdv, wRender, wRestartApp, wRestartW, wGarbage, 0, wGone}
+		ws := []int{wEdit, 0, wAdv, wRender, wRestartApp, wRestartW, wGarbage, 0, wGone, 0}
+		if !w.pending && w.fileVar >= 0 {
+			ws[9] = wTorn
+		}
 		if !w.pending {
 			ws[7] = wBurst
 		}
@@ -519,6 +522,72 @@ func (w *world) run() {
 			}
 			w.k.Count("probe_render_bursts", 1)
 			w.check("after a burst of renders")
+		case 9:
+			// disk fault: the last write of the text file was cut short (disk full, crash of the
+			// writer): the file holds only its first lines. While it is like that the program may
+			// fail to render; what it does render must still be a version the file has held.
+			// The watcher is then restarted, which writes the file again.
+			root := os.Getenv("TEMPL_DEV_MODE_ROOT")
+			ents, _ := os.ReadDir(root)
+			torn := 0
+			for _, e := range ents {
+				p := filepath.Join(root, e.Name())
+				b, err := os.ReadFile(p)
+				if err != nil || e.IsDir() {
+					continue
+				}
+				lines := strings.Split(string(b), "\n")
+				if len(lines) < 2 {
+					continue
+				}
+				keep := t.Choose(len(lines), "torn-keep-lines")
+				cut := strings.Join(lines[:keep], "\n")
+				// (Cut at a line boundary. A cut in the middle of a line usually leaves a shorter but
+				// well-formed literal, which no reader of this file format can tell from an
+				// intended one: that the page is wrong while the file is in that state is not held
+				// against the program.)
+				os.WriteFile(p, []byte(cut), 0o644)
+				now := time.Now()
+				os.Chtimes(p, now, now)
+				torn++
+			}
+			if torn == 0 {
+				break
+			}
+			w.note("text file torn (short write)")
+			w.k.Count("fault_text_file_torn", 1)
+			for i, n := 0, t.Range(1, 3, "renders-while-torn"); i < n && !rc.Failed(); i++ {
+				time.Sleep([]time.Duration{time.Millisecond, 150 * time.Millisecond, settle}[t.Choose(3, "torn-gap")])
+				w.k.Quiesce()
+				for _, a := range argsets {
+					got, err := render(w.fam.Variants[w.c].Comp, a, true)
+					if err != nil {
+						w.k.Count("fault_render_failed_while_text_file_torn", 1)
+						continue
+					}
+					ok := false
+					for _, v := range w.held {
+						if want, _ := render(w.fam.Variants[v].Comp, a, false); want == got {
+							ok = true
+							break
+						}
+					}
+					if !ok {
+						rc.Fail("C16/dev-differs-from-fresh-build", "%s: the text file was cut short by a failed write; the running program (compiled v%d) rendered without error\n  %q\nwhich is no version the file has held since the build (held %v)\n trace: %s", w.fam.Name, w.c, got, w.held, strings.Join(w.trace, "\n  "))
+						break
+					}
+					w.k.Count("probe_render_succeeded_while_text_file_torn", 1)
+				}
+			}
+			if rc.Failed() {
+				break
+			}
+			// heal: a restarted watcher handles every file again
+			w.note("restart watcher (heals the torn file)")
+			w.newHandler()
+			if _, err := w.watch(); err == nil {
+				w.rebuild()
+			}
 		case 8:
 			// disk fault: the text files are unreachable for a while (a volume that drops out, a
 			// deploy that moves the directory aside and back). Renders in between may fail; once
